@@ -14,7 +14,7 @@
                       slice.indices normalisation, alignment, region shape, rechunk of the source to the target chunks);
                       validateRegionOld = the code before the fix: commits d416aac / ba97b91
     validateQr        cubed/array_api/linalg.py : qr
-    validateReduce    cubed/core/ops.py : reduction / _normalize_split_every
+    validateReduce    cubed/core/ops.py : reduction / _normalize_split_every   (validateReduceOld = before fix 6c5075b)
     validateBroadcastTo, validateRoll, validatePermute, validateMoveaxis   (manipulation_functions.py)
     mapBlocksExpr / validateMapBlocks   cubed/core/ops.py : _map_blocks + blockwise("Unknown dimension")
                                         + make_blockwise_back_key_function (via `Cubed.Bw.keyFn`)
@@ -428,7 +428,22 @@ inductive SplitEvery where
   | other
 deriving Repr
 
-/-- `reduction`: validate_axis on the axis tuple, then `_normalize_split_every`. -/
+/-- OLD `reduction` (before `fix:` 6c5075b): validate_axis on the axis tuple, then `_normalize_split_every`, which
+took the values of a dict as they were (0 made `partial_reduce` divide by zero while building, 1 returned the
+unreduced blocks). -/
+def validateReduceOld (ndim : Nat) (axes : Option (List Int)) (se : SplitEvery) : Res :=
+  let ax : Except ErrKind (List Nat) := match axes with
+    | none => .ok []
+    | some l => validateAxes l ndim
+  match ax with
+  | .error e => .error e
+  | .ok _ =>
+    match se with
+    | .other => .error .ValueError
+    | _ => .ok ()
+
+/-- `reduction` now: validate_axis on the axis tuple, then `_normalize_split_every`, which refuses a dict whose
+value for a reduced axis is below 2 (`vals` = the (axis, value) pairs of the reduced axes). -/
 def validateReduce (ndim : Nat) (axes : Option (List Int)) (se : SplitEvery) : Res :=
   let ax : Except ErrKind (List Nat) := match axes with
     | none => .ok []
@@ -438,6 +453,7 @@ def validateReduce (ndim : Nat) (axes : Option (List Int)) (se : SplitEvery) : R
   | .ok _ =>
     match se with
     | .other => .error .ValueError
+    | .dict vals => if vals.any (fun q => q.2 < 2) then .error .ValueError else .ok ()
     | _ => .ok ()
 
 /-- `_normalize_split_every` for an int: `max(int(se ** (1/len(axis))), 2)`; `root` is the integer root. -/
